@@ -169,12 +169,87 @@ def _mk_script_filter(modname):
     return body
 
 
+def ob_geometry_order(env):
+    """Mesh.geometry: each stage is run on ALL regions before the next stage starts (geometry2 needs every neighbour's Bp from geometry1, calcZShift the
+    neighbours' hy/dphidy inputs, calcMetric the zShift that the first region of each y-group hands to the others)"""
+    log = []
+
+    class R:
+        def __init__(self, name):
+            self.name = name
+            self.Rxy = self.Zxy = object()
+
+        def __getattr__(self, k):
+            if k in ("calcDistances", "geometry1", "geometry2", "calcZShift", "calcMetric"):
+                return lambda: log.append((k, self.name))
+            raise AttributeError(k)
+
+    me = mesh_mod.Mesh.__new__(mesh_mod.Mesh)
+    me.regions = OrderedDict([(0, R("a")), (1, R("b")), (2, R("c"))])
+    me.user_options = types.SimpleNamespace(curvature_smoothing=None, shiftedmetric=True)
+    import contextlib
+    import io
+    with contextlib.redirect_stdout(io.StringIO()):
+        me.geometry()
+    env.witness("ran")
+    stages = ["calcDistances", "geometry1", "geometry2", "calcZShift", "calcMetric"]
+    env.claim("every_stage_runs_once_per_region_in_stage_order", log == [(st, n) for st in stages for n in ("a", "b", "c")])
+
+
+def ob_documented_variables(env):
+    """every variable documented in doc/grid-file.rst has a writer in BoutMesh.geometry / writeGridfile (structural: names collected from the AST of the
+    current source; the loops `for name in self.fields_to_output: self.writeArray(name, ...)` etc. are followed by name)"""
+    import re
+    doc = open(os.path.join(REPO, "doc", "grid-file.rst")).read()
+    documented = set()
+    for line in doc.splitlines():
+        m = re.match(r"^\s*\* - (``.*)$", line)
+        if m:
+            documented.update(re.findall(r"``([^`]+)``", m.group(1)))
+    if len(documented) < 40:
+        raise core.HarnessError("could not parse the documented variable list (%d names)" % len(documented))
+    gsrc = ast.parse(textwrap.dedent(inspect.getsource(mesh_mod.BoutMesh.geometry)))
+    wsrc = ast.parse(textwrap.dedent(inspect.getsource(mesh_mod.BoutMesh.writeGridfile)))
+    fields, xarrays, direct, arrays, corners = [], [], set(), set(), set()
+    for n in ast.walk(gsrc):
+        if isinstance(n, ast.Call) and isinstance(n.func, ast.Name) and n.args and isinstance(n.args[0], ast.Constant):
+            if n.func.id == "addFromRegions":
+                fields.append(n.args[0].value)
+            elif n.func.id == "addFromRegionsXArray":
+                xarrays.append(n.args[0].value)
+    for n in ast.walk(wsrc):
+        if isinstance(n, ast.Call) and isinstance(n.func, ast.Attribute) and n.args and isinstance(n.args[0], ast.Constant) and isinstance(n.args[0].value, str):
+            if n.func.attr == "write" and ast.unparse(n.func.value) == "f":
+                direct.add(n.args[0].value)
+            elif n.func.attr == "writeArray":
+                arrays.add(n.args[0].value)
+        if isinstance(n, ast.For) and "writeCorners" in ast.unparse(n) and isinstance(n.iter, ast.List):
+            corners.update(e.value for e in n.iter.elts if isinstance(e, ast.Constant))
+    loops = ast.unparse(wsrc)
+    env.claim("fields_collected_in_geometry_are_all_written", "for name in self.fields_to_output:" in loops and "self.writeArray(name, self.__dict__[name], f)" in loops)
+    env.claim("x_arrays_collected_in_geometry_are_all_written", "for name in self.arrayXDirection_to_output:" in loops and "self.writeArrayXDirection(name, self.__dict__[name], f)" in loops)
+    written = set(direct) | set(xarrays)
+    for nm in list(fields) + list(arrays):
+        written.update({nm, nm + "_xlow", nm + "_ylow"})
+    for nm in corners:
+        written.update({nm + "_corners", nm + "_lower_right_corners", nm + "_upper_right_corners", nm + "_upper_left_corners"})
+    env.witness("names_collected")
+    for nm in sorted(documented):
+        env.claim("documented_variable_has_a_writer:" + nm, nm in written)
+
+
 for _m in ("hypnotoad.scripts.hypnotoad_geqdsk", "hypnotoad.scripts.hypnotoad_circular"):
     OBLIGATIONS.append(Ob("script_option_filter_" + _m.rsplit("_", 1)[1], _mk_script_filter(_m), tier="quick", family="option guards", encodes=[_m + ":main"],
                           desc="the 'options that are not used' filter of the command-line entry point never rejects an option that the entry point itself reads "
                                "(symbolic option name, z3 strings); the shipped reference settings pass the filter",
                           stubs=["argument parsing, file I/O and grid generation are not executed (AST slice of the filter only)"],
                           bounds="one option key, any string"))
+OBLIGATIONS.append(Ob("geometry_stage_order", ob_geometry_order, tier="quick", family="file contents", encodes=["hypnotoad.core.mesh:Mesh.geometry"],
+                      desc="distances, geometry1, geometry2, zShift, metric: each stage completed for all regions before the next starts", bounds="3 recording regions"))
+OBLIGATIONS.append(Ob("documented_variables_have_a_writer", ob_documented_variables, tier="quick", family="file contents",
+                      encodes=["hypnotoad.core.mesh:BoutMesh.geometry", "hypnotoad.core.mesh:BoutMesh.writeGridfile"],
+                      desc="every variable named in doc/grid-file.rst is collected/written somewhere in the current source (structural; no arithmetic to decide)",
+                      bounds="names only; shapes are decided under C01 (file_variables_from_global_arrays)"))
 OBLIGATIONS.append(Ob("makeConnection_guards", ob_makeconnection, tier="quick", family="topology guards", encodes=["hypnotoad.core.equilibrium:Equilibrium.makeConnection"],
                       desc="nx mismatch, double connection and unordered region container are refused; an accepted connection is recorded on both regions", bounds="nx in 1..9 symbolic"))
 OBLIGATIONS.append(Ob("mesh_option_consistency_guard", ob_option_consistency, tier="quick", family="option guards", encodes=["hypnotoad.core.mesh:Mesh.__init__"],
